@@ -18,7 +18,8 @@
 (*   + <tail>: further contract transactions in the same block -                                   *)
 (*       again (the operation once more) | emb (a successful call of ANOTHER, embedded contract)   *)
 (*       | wasm (of another, wasm contract) | fail (a failing call of another contract)            *)
-(*       | two (the other embedded contract, then the operation again: three contract txs).        *)
+(*       | two (the other embedded contract, then the operation again: three contract txs)         *)
+(*       | termemb (a termination of the contract itself, then the other embedded contract).       *)
 (* Whatever an earlier transaction leaves in the execution context of the block (buffered absolute *)
 (* balances, store entries, deployments) must not reach the state with a later one.                *)
 (* The lifecycle (deployed? how far initialised? funded? terminated?) only STEERS the generator   *)
@@ -78,7 +79,7 @@ Dev(k, op) == (IF op.arg # "valid" THEN 1 ELSE 0) + (IF op.amt # DefAmt(k, op.m)
               + (IF op.gas # "enough" THEN 1 ELSE 0) + (IF op.who # DefWho(k, op.m) THEN 1 ELSE 0)
               + (IF op.pair # "no" THEN 1 ELSE 0)
 
-Sandwiches == {"sw-" \o md \o "-" \o tl : md \in {"none", "self", "cin", "xout"}, tl \in {"again", "emb", "wasm", "fail", "two"}}
+Sandwiches == {"sw-" \o md \o "-" \o tl : md \in {"none", "self", "cin", "xout"}, tl \in {"again", "emb", "wasm", "fail", "two", "termemb"}}
 IsSandwich(op) == op.pair \in Sandwiches
 
 TxOps(k) == {[m |-> m, arg |-> a, amt |-> p, gas |-> g, who |-> r, pair |-> pr] :
@@ -90,6 +91,7 @@ Ops(k) == {op \in TxOps(k) :
               /\ (op.pair = "term" => op.m # "deploy")
               /\ (IsSandwich(op) => /\ (op.arg = "valid" \/ (op.arg = "valid2" /\ op.pair \in {"sw-self-again", "sw-cin-again", "sw-xout-emb"}))
                                     /\ op.gas = "enough" /\ op.m # "unknown"
+                                    /\ (op.pair \in {"sw-none-termemb", "sw-self-termemb", "sw-cin-termemb", "sw-xout-termemb"} => Embedded(k) /\ op.m # "terminate")
                                     /\ op.amt = DefAmt(k, op.m) /\ op.who = DefWho(k, op.m))
               /\ (op.m = "terminate" => op.amt = "zero")}
           \cup {[m |-> "fund", arg |-> "valid", amt |-> "big", gas |-> "enough", who |-> "other", pair |-> "no"],
